@@ -564,8 +564,8 @@ def plan_merge(run, prop, tier):
 
 def hexgen_cfg(maxlen, maxidx, mode, tier):
     # longer byte strings around powers of two (chunked loops, length fields of one byte, ...), indices at the edges only
-    longs = "{15, 16, 17, 31, 32, 33, 63, 64, 65, 127, 128, 129, 255, 256, 257}" if tier == "quick" else \
-            "{24, 31, 32, 33, 63, 64, 65, 127, 128, 129, 255, 256, 257, 511, 512, 513, 1000, 1023, 1024, 1025}"
+    longs = "{15, 16, 17, 23, 24, 25, 26, 31, 32, 33, 40, 41, 63, 64, 65, 127, 128, 129, 255, 256, 257}" if tier == "quick" else \
+            "{23, 24, 25, 26, 31, 32, 33, 40, 41, 48, 63, 64, 65, 127, 128, 129, 255, 256, 257, 511, 512, 513, 1000, 1023, 1024, 1025}"
     return (f"INIT Init\nNEXT Next\nCONSTANTS MaxLen = {maxlen} MaxIdx = {maxidx} Mode = \"{mode}\" LongLens = {longs}\nCHECK_DEADLOCK FALSE\n")
 
 
